@@ -38,12 +38,19 @@ def run(argv):
         print(f"replaying {want.get('key')} ({want.get('where')})")
     try:
         facts = core.load_facts("dev")
-        rc = mod.check(facts, rep, tier)
+        rep.deferred = True
+        mod.check(facts, rep, tier)
+        if tier == "thorough" and not os.environ.get("SLX_REPO"):
+            from . import thorough
+
+            thorough.extend(prop, mod, rep)
+        rc = rep.finish_now()
     except SystemExit:
         raise
     except Exception:
         # fail closed: an engine crash is not a pass
         traceback.print_exc()
         rep.violation("engine", "crash", "-", "rule engine crashed: " + traceback.format_exc().splitlines()[-1])
+        rep.deferred = False
         rc = rep.finish("engine crashed", "n/a")
     return rc
